@@ -142,7 +142,7 @@ def run(C):
                 return v
         return Opaque('other:' + tag)
 
-    def decide(ex, name, formula, text, describe=None):
+    def decide(ex, name, formula, text, describe=None, tool=None):
         s = z3.SolverFor('QF_BV')
         s.add(*ex.assumptions)
         s.add(formula)
@@ -162,7 +162,11 @@ def run(C):
             C.unconfirmed.append('%s has a counter-model and no native replay' % name)
             return
         line, want = describe(s.model())
-        got = native([line])[0]
+        if tool == 'call-eval':
+            import argcheck
+            got = argcheck.native([line])[0]
+        else:
+            got = native([line])[0]
         q['counterexample'] = {'request': line, 'native': got, 'expected': want}
         if got == want:
             C.unconfirmed.append('counterexample of %s does not reproduce natively: %s -> %s' % (name, line, got))
@@ -197,6 +201,26 @@ def run(C):
                        describe=(lambda m, how=how: how) if how else None)
             else:
                 decide(ex, arm + ':guarantee', zand(g, exit_flag), 'analysing a %s statement leaves the argument flag cleared (INV-S)' % vname)
+            if is_call:
+                # the verdict of use_function (E510-E513, decided by the call clause in argcheck.py) must reach the output:
+                # a rejected call becomes Poison(Error(that very error)), an accepted call stays a call
+                hvs = [hv for callee, hv in ex.havoc_log if callee.endswith('use_function')]
+                if len(hvs) != 1 or not isinstance(hvs[0], EnumV) or 'Err' not in hvs[0].variants:
+                    raise Inconclusive('the %s arm no longer asks use_function exactly once (%d)' % (vname, len(hvs)))
+                hv = hvs[0]
+                rejected = hv.discr == bv(1, 64)
+                d_poison = edef.variant_by_name('Poison')[1]
+                pv = res.variants.get('Poison') if isinstance(res, EnumV) else None
+                pe = pv[0].variants.get('Error') if pv and isinstance(pv[0], EnumV) else None
+                kept = z3.BoolVal(False)
+                if pe is not None and pe[0] is hv.variants['Err'][0]:
+                    kept = zand(res.discr == bv(d_poison, 64), pv[0].discr == bv(C.pdef.variant_by_name('Error')[1], 64))
+                req = '%s 1 Pointer(Int32) 1 1 d Int32' % ('callx' if kind == 'Expression' else 'call')
+                decide(ex, arm + ':error-kept', zand(g, rejected, znot(kept)),
+                       'a call rejected by use_function (E510-E513) becomes Poison(Error(e)) with that very error: it is reported, not dropped',
+                       describe=lambda m, req=req: (req, 'ArgumentMissingAddress'), tool='call-eval')
+                decide(ex, arm + ':accepted-stays-call', zand(g, znot(rejected), res.discr != bv(d, 64)),
+                       'a call accepted by use_function stays a call')
             for cg, entry, tag, ckind in calls:
                 if ckind != 'expr':
                     continue
